@@ -3,7 +3,7 @@ CONSTANTS
   PATH = "narrow"
   R = 2
   NW = 2
-  SELS = {0, 1}
+  SELS = {1}
   HOLD = TRUE
   VALS = 2
   COVER = FALSE
